@@ -556,4 +556,388 @@ theorem updV_good {tv : TV K} (hg : GoodV tv) (ts : Nat) {es : List (Entry K)}
   · rw [if_neg h, assignV_fold_of_not_mem es _ (fun x hx hxi =>
       h ⟨x, (Mx.sortByIdx_perm es).mem_iff.mpr hx, hxi⟩)]
 
+/-! ## 5. Compute service: the staged form of `basicCompute` -/
+
+/-- the effective inputs of `BasicCompute` (compute.go 38-135) -/
+structure BcEff (K : Type) where
+  ltm : TM K
+  pre : Option (TV K)
+  gt : TV K
+  c2 : CSM K
+  p2 : Vec K
+  t2 : Vec K
+  c4 : CSM K
+  p3 : Vec K
+  t3 : Vec K
+  d4 : CSM K
+  a : K
+  e : K
+  ts2 : Nat
+
+def bcLoadPre (s : GState K) (q : Params K) : Option (Option (TV K)) :=
+  if q.preTrustId == "" then some none
+  else match lookup s.vecs q.preTrustId with
+    | none => none
+    | some pt => some (some pt)
+
+def bcAlignPre (c0 : CSM K) (ts0 : Nat) : Option (TV K) → CSM K × Vec K × Nat
+  | none => (c0, Vec.new c0.major [], ts0)
+  | some pt =>
+    if pt.v.dim < c0.major then (c0, pt.v.setDim c0.major, max ts0 pt.ts)
+    else if c0.major < pt.v.dim then (c0.setDim pt.v.dim pt.v.dim, pt.v, max ts0 pt.ts)
+    else (c0, pt.v, max ts0 pt.ts)
+
+def bcAlignGt (c1 : CSM K) (p1 : Vec K) (gt : TV K) : CSM K × Vec K × Vec K :=
+  if gt.v.dim < p1.dim then (c1, p1, gt.v.setDim p1.dim)
+  else if p1.dim < gt.v.dim then (c1.setDim gt.v.dim gt.v.dim, p1.setDim gt.v.dim, gt.v)
+  else (c1, p1, gt.v)
+
+def bcParamsOK (q : Params K) : Bool :=
+  (match q.alpha with | some a => !(lt a zero || lt one a) | none => true) &&
+  (match q.epsilon with | some e => !(le e zero || lt one e) | none => true)
+
+def bcFinish (k : Consts K) (q : Params K) (ltm : TM K) (pre : Option (TV K)) (gt : TV K)
+    (c2 : CSM K) (p2 t2 : Vec K) (ts2 : Nat) : Except Code (BcEff K) :=
+  let p3 := canonicalizeTrustVector p2
+  let t3 := canonicalizeTrustVector t2
+  match extractDistrust c2 with
+  | .error _ => .error .internal
+  | .ok (c3, d3) =>
+    match canonicalizeLocalTrust c3 (some p3), canonicalizeLocalTrust d3 none with
+    | .ok c4, .ok d4 =>
+      .ok { ltm := ltm, pre := pre, gt := gt, c2 := c2, p2 := p2, t2 := t2, c4 := c4, p3 := p3,
+            t3 := t3, d4 := d4, a := q.alpha.getD k.half,
+            e := q.epsilon.getD (div k.epsNum (ofNat c2.major)), ts2 := ts2 }
+    | _, _ => .error .internal
+
+def bcPrep (k : Consts K) (s : GState K) (q : Params K) : Except Code (BcEff K) :=
+  match lookup s.mats q.localTrustId with
+  | none => .error .notFound
+  | some ltm =>
+    if ltm.m.major ≠ ltm.m.minor then .error .internal else
+    match bcLoadPre s q with
+    | none => .error .notFound
+    | some preOpt =>
+      match lookup s.vecs q.globalTrustId with
+      | none => .error .notFound
+      | some gt =>
+        let x := bcAlignPre ltm.m ltm.ts preOpt
+        let y := bcAlignGt x.1 x.2.1 gt
+        if !bcParamsOK q then .error .invalidArgument
+        else bcFinish k q ltm preOpt gt y.1 y.2.1 y.2.2 (max x.2.2 gt.ts)
+
+def bcOpts (q : Params K) (E : BcEff K) : ComputeOpts K :=
+  { t0 := some E.t3, resultDim := some E.t3.dim,
+    maxIterations := if q.maxIterations = 0 then none else some (q.maxIterations : Int) }
+
+def bcWrite (s : GState K) (q : Params K) (E : BcEff K) (res : ComputeResult K) : GState K :=
+  let vecs1 :=
+    if q.positiveGlobalTrustId == "" then s.vecs
+    else match lookup s.vecs q.positiveGlobalTrustId with
+      | none => s.vecs
+      | some gtp => store s.vecs q.positiveGlobalTrustId ⟨res.t, max gtp.ts E.ts2⟩
+  let gtNow := (lookup vecs1 q.globalTrustId).getD E.gt
+  { s with vecs := store vecs1 q.globalTrustId ⟨discountTrustVector res.t E.d4, max gtNow.ts E.ts2⟩ }
+
+theorem basicCompute_eq (fuel : Nat) (k : Consts K) (s : GState K) (q : Params K) :
+    basicCompute fuel k s (some q) =
+      match bcPrep k s q with
+      | .error c => (s, c)
+      | .ok E =>
+        match compute fuel E.c4 E.p3 E.a E.e (bcOpts q E) with
+        | .error _ => (s, .unavailable)
+        | .ok res => (bcWrite s q E res, .ok) := by
+  obtain ⟨lid, pid, al, ep, gid, mx, pos⟩ := q
+  unfold basicCompute bcPrep
+  simp only
+  cases h1 : lookup s.mats lid with
+  | none => rfl
+  | some ltm =>
+    simp only
+    by_cases hsq : ltm.m.major ≠ ltm.m.minor
+    · rw [if_pos hsq, if_pos hsq]
+    · rw [if_neg hsq, if_neg hsq]
+      unfold bcLoadPre
+      cases hp : (pid == "") with
+      | true =>
+        simp only [if_true]
+        cases hg : lookup s.vecs gid with
+        | none => rfl
+        | some gt =>
+          simp only [bcAlignPre]
+          generalize hy : bcAlignGt ltm.m (Vec.new ltm.m.major []) gt = y
+          unfold bcAlignGt at hy
+          simp only [hy]
+          cases al <;> cases ep <;> simp only [bcParamsOK, Bool.not_and]
+          all_goals
+            split
+            · rfl
+            · unfold bcFinish
+              simp only
+              cases hx : extractDistrust y.1 with
+              | error _ => rfl
+              | ok cd =>
+                obtain ⟨c3, d3⟩ := cd
+                simp only
+                cases h4 : canonicalizeLocalTrust c3 (some (canonicalizeTrustVector y.2.1)) <;>
+                  cases h5 : canonicalizeLocalTrust d3 none <;> rfl
+      | false =>
+        simp only [Bool.false_eq_true, if_false]
+        cases hpt : lookup s.vecs pid with
+        | none => rfl
+        | some pt =>
+          simp only
+          cases hg : lookup s.vecs gid with
+          | none => rfl
+          | some gt =>
+            simp only
+            generalize hx : bcAlignPre ltm.m ltm.ts (some pt) = x
+            simp only [bcAlignPre] at hx
+            simp only [hx]
+            generalize hy : bcAlignGt x.1 x.2.1 gt = y
+            unfold bcAlignGt at hy
+            simp only [hy]
+            cases al <;> cases ep <;> simp only [bcParamsOK, Bool.not_and]
+            all_goals
+              split
+              · rfl
+              · unfold bcFinish
+                simp only
+                cases hxd : extractDistrust y.1 with
+                | error _ => rfl
+                | ok cd =>
+                  obtain ⟨c3, d3⟩ := cd
+                  simp only
+                  cases h4 : canonicalizeLocalTrust c3 (some (canonicalizeTrustVector y.2.1)) <;>
+                    cases h5 : canonicalizeLocalTrust d3 none <;> rfl
+
+/-- `bcPrep` as an `Option` -/
+def bcEffective (k : Consts K) (s : GState K) (q : Params K) : Option (BcEff K) :=
+  match bcPrep k s q with
+  | .ok E => some E
+  | .error _ => none
+
+/-- the timestamp of the optional pre-trust (`0` when none is named) -/
+def preTs (pre : Option (TV K)) : Nat := match pre with | none => 0 | some pt => pt.ts
+def preDim (pre : Option (TV K)) : Nat := match pre with | none => 0 | some pt => pt.v.dim
+def preEntries (pre : Option (TV K)) : List (Entry K) :=
+  match pre with | none => [] | some pt => pt.v.entries
+
+theorem bcAlignPre_ts (c0 : CSM K) (ts0 : Nat) (pre : Option (TV K)) :
+    (bcAlignPre c0 ts0 pre).2.2 = max ts0 (preTs pre) := by
+  cases pre with
+  | none => simp [bcAlignPre, preTs]
+  | some pt =>
+    simp only [bcAlignPre, preTs]
+    split
+    · rfl
+    · split <;> rfl
+
+/-- inversion of a successful preparation -/
+theorem bcPrep_ok {k : Consts K} {s : GState K} {q : Params K} {E : BcEff K}
+    (h : bcPrep k s q = .ok E) :
+    lookup s.mats q.localTrustId = some E.ltm ∧ E.ltm.m.major = E.ltm.m.minor ∧
+    bcLoadPre s q = some E.pre ∧ lookup s.vecs q.globalTrustId = some E.gt ∧
+    bcParamsOK q = true ∧
+    E.c2 = (bcAlignGt (bcAlignPre E.ltm.m E.ltm.ts E.pre).1
+      (bcAlignPre E.ltm.m E.ltm.ts E.pre).2.1 E.gt).1 ∧
+    E.p2 = (bcAlignGt (bcAlignPre E.ltm.m E.ltm.ts E.pre).1
+      (bcAlignPre E.ltm.m E.ltm.ts E.pre).2.1 E.gt).2.1 ∧
+    E.t2 = (bcAlignGt (bcAlignPre E.ltm.m E.ltm.ts E.pre).1
+      (bcAlignPre E.ltm.m E.ltm.ts E.pre).2.1 E.gt).2.2 ∧
+    E.ts2 = max (max E.ltm.ts (preTs E.pre)) E.gt.ts ∧
+    E.p3 = canonicalizeTrustVector E.p2 ∧ E.t3 = canonicalizeTrustVector E.t2 ∧
+    (∃ c3 d3, extractDistrust E.c2 = .ok (c3, d3) ∧
+      canonicalizeLocalTrust c3 (some E.p3) = .ok E.c4 ∧
+      canonicalizeLocalTrust d3 none = .ok E.d4) ∧
+    E.a = q.alpha.getD k.half ∧ E.e = q.epsilon.getD (k.epsNum / (E.c2.major : K)) := by
+  unfold bcPrep at h
+  split at h
+  · cases h
+  · rename_i ltm h1
+    split at h
+    · cases h
+    · rename_i hsq
+      split at h
+      · cases h
+      · rename_i preOpt hp
+        split at h
+        · cases h
+        · rename_i gt hg
+          simp only at h
+          split at h
+          · cases h
+          · rename_i hpar
+            unfold bcFinish at h
+            simp only at h
+            split at h
+            · cases h
+            · rename_i c3 d3 hx
+              split at h
+              · rename_i c4 d4 h4 h5
+                cases h
+                refine ⟨h1, by simpa using hsq, hp, hg, by simpa using hpar, rfl, rfl, rfl, ?_,
+                  rfl, rfl, ⟨c3, d3, hx, h4, h5⟩, rfl, rfl⟩
+                simp only [bcAlignPre_ts]
+              · cases h
+
+theorem bcEffective_eq_some {k : Consts K} {s : GState K} {q : Params K} {E : BcEff K} :
+    bcEffective k s q = some E ↔ bcPrep k s q = .ok E := by
+  unfold bcEffective
+  cases bcPrep k s q <;> simp
+
+/-! ### the write-back -/
+
+theorem bcWrite_mats (s : GState K) (q : Params K) (E : BcEff K) (res : ComputeResult K) :
+    (bcWrite s q E res).mats = s.mats := rfl
+
+theorem bcWrite_lookup_other (s : GState K) (q : Params K) (E : BcEff K) (res : ComputeResult K)
+    {id : String} (h1 : id ≠ q.globalTrustId) (h2 : id ≠ q.positiveGlobalTrustId) :
+    lookup (bcWrite s q E res).vecs id = lookup s.vecs id := by
+  unfold bcWrite
+  simp only
+  rw [lookup_store_ne _ _ h1]
+  split
+  · rfl
+  · split
+    · rfl
+    · rw [lookup_store_ne _ _ h2]
+
+theorem bcWrite_gt (s : GState K) (q : Params K) (E : BcEff K) (res : ComputeResult K)
+    (hg : lookup s.vecs q.globalTrustId = some E.gt) :
+    lookup (bcWrite s q E res).vecs q.globalTrustId =
+      some ⟨discountTrustVector res.t E.d4, max E.gt.ts E.ts2⟩ := by
+  unfold bcWrite
+  simp only
+  rw [lookup_store_self]
+  congr 2
+  split
+  · rw [hg]; rfl
+  · split
+    · rw [hg]; rfl
+    · rename_i gtp hp
+      by_cases he : q.globalTrustId = q.positiveGlobalTrustId
+      · rw [he, lookup_store_self]
+        rw [he, hp] at hg
+        cases hg
+        simp only [Option.getD_some]
+        omega
+      · rw [lookup_store_ne _ _ he, hg]; rfl
+
+theorem bcWrite_pos (s : GState K) (q : Params K) (E : BcEff K) (res : ComputeResult K)
+    {gtp : TV K} (h0 : q.positiveGlobalTrustId ≠ "")
+    (hne : q.positiveGlobalTrustId ≠ q.globalTrustId)
+    (hp : lookup s.vecs q.positiveGlobalTrustId = some gtp) :
+    lookup (bcWrite s q E res).vecs q.positiveGlobalTrustId =
+      some ⟨res.t, max gtp.ts E.ts2⟩ := by
+  unfold bcWrite
+  simp only
+  rw [lookup_store_ne _ _ hne]
+  have : (q.positiveGlobalTrustId == "") = false := beq_false_of_ne h0
+  rw [this, hp]
+  simp only [Bool.false_eq_true, if_false]
+  rw [lookup_store_self]
+
+/-! ### the alignment -/
+
+theorem csm_setDim_major (M : CSM K) (r c : Nat) : (M.setDim r c).major = r := by
+  unfold CSM.setDim; simp
+
+theorem csm_setDim_minor (M : CSM K) (r c : Nat) : (M.setDim r c).minor = c := by
+  unfold CSM.setDim; simp
+
+theorem bcAlignPre_spec (c0 : CSM K) (hsq : c0.major = c0.minor) (ts0 : Nat)
+    (pre : Option (TV K)) :
+    (bcAlignPre c0 ts0 pre).1.major = max c0.major (preDim pre) ∧
+    (bcAlignPre c0 ts0 pre).1.minor = max c0.major (preDim pre) ∧
+    (bcAlignPre c0 ts0 pre).2.1 = ⟨max c0.major (preDim pre), preEntries pre⟩ := by
+  cases pre with
+  | none =>
+    refine ⟨?_, ?_, ?_⟩ <;> simp [bcAlignPre, preDim, preEntries, Vec.new, sortByIdx, hsq]
+  | some pt =>
+    simp only [bcAlignPre, preDim, preEntries]
+    split
+    · rename_i h
+      rw [C11.setDim_of_le _ (Nat.le_of_lt h), Nat.max_eq_left (Nat.le_of_lt h)]
+      exact ⟨rfl, hsq.symm, rfl⟩
+    · split
+      · rename_i h
+        rw [Nat.max_eq_right (Nat.le_of_lt h)]
+        exact ⟨csm_setDim_major _ _ _, csm_setDim_minor _ _ _, rfl⟩
+      · rename_i h1 h2
+        have : pt.v.dim = c0.major := by omega
+        rw [← this, Nat.max_self]
+        exact ⟨rfl, by show c0.minor = pt.v.dim; omega, rfl⟩
+
+theorem bcAlignGt_spec (c1 : CSM K) (p1 : Vec K) (gt : TV K) (h1 : c1.major = p1.dim)
+    (h2 : c1.minor = p1.dim) :
+    (bcAlignGt c1 p1 gt).1.major = max p1.dim gt.v.dim ∧
+    (bcAlignGt c1 p1 gt).1.minor = max p1.dim gt.v.dim ∧
+    (bcAlignGt c1 p1 gt).2.1 = ⟨max p1.dim gt.v.dim, p1.entries⟩ ∧
+    (bcAlignGt c1 p1 gt).2.2 = ⟨max p1.dim gt.v.dim, gt.v.entries⟩ := by
+  unfold bcAlignGt
+  split
+  · rename_i h
+    rw [C11.setDim_of_le _ (Nat.le_of_lt h), Nat.max_eq_left (Nat.le_of_lt h)]
+    exact ⟨h1, h2, rfl, rfl⟩
+  · split
+    · rename_i h
+      rw [C11.setDim_of_le _ (Nat.le_of_lt h), Nat.max_eq_right (Nat.le_of_lt h)]
+      exact ⟨csm_setDim_major _ _ _, csm_setDim_minor _ _ _, rfl, rfl⟩
+    · rename_i h3 h4
+      have : gt.v.dim = p1.dim := by omega
+      rw [this, Nat.max_self]
+      exact ⟨h1, h2, rfl, by rw [← this]⟩
+
+/-- growing a well-formed matrix to `d × d` keeps the invariants and the dense content -/
+theorem setDim_grow {M : CSM K} (hw : WFM M) (hc : HiddenClean M) {d : Nat}
+    (h1 : M.major ≤ d) (h2 : M.minor ≤ d) :
+    WFM (M.setDim d d) ∧ HiddenClean (M.setDim d d) ∧
+      denRows (M.setDim d d).rows = denRows M.rows := by
+  obtain ⟨a, b, _⟩ := C10.setDim_wf M hw hc d d
+  refine ⟨a, b, ?_⟩
+  funext i j
+  rw [C10.setDim_den M hw hc]
+  split
+  · rfl
+  · rename_i h
+    by_cases hi : i < d
+    · have hj : M.minor ≤ j := by
+        have : ¬ j < d := fun hj => h ⟨hi, hj⟩
+        omega
+      exact (Mx.denRows_of_ge_minor hw i hj).symm
+    · exact (Mx.denRows_of_ge_major hw (by omega) j).symm
+
+/-- the aligned local trust has the dense content of the stored one -/
+theorem bcAlign_den {c0 : CSM K} (hw : WFM c0) (hc : HiddenClean c0) (hsq : c0.major = c0.minor)
+    (ts0 : Nat) (pre : Option (TV K)) (gt : TV K) :
+    WFM (bcAlignGt (bcAlignPre c0 ts0 pre).1 (bcAlignPre c0 ts0 pre).2.1 gt).1 ∧
+    HiddenClean (bcAlignGt (bcAlignPre c0 ts0 pre).1 (bcAlignPre c0 ts0 pre).2.1 gt).1 ∧
+    denRows (bcAlignGt (bcAlignPre c0 ts0 pre).1 (bcAlignPre c0 ts0 pre).2.1 gt).1.rows =
+      denRows c0.rows := by
+  have hx : WFM (bcAlignPre c0 ts0 pre).1 ∧ HiddenClean (bcAlignPre c0 ts0 pre).1 ∧
+      denRows (bcAlignPre c0 ts0 pre).1.rows = denRows c0.rows := by
+    cases pre with
+    | none => exact ⟨hw, hc, rfl⟩
+    | some pt =>
+      simp only [bcAlignPre]
+      split
+      · exact ⟨hw, hc, rfl⟩
+      · split
+        · rename_i h
+          exact setDim_grow hw hc (Nat.le_of_lt h) (by rw [← hsq]; exact Nat.le_of_lt h)
+        · exact ⟨hw, hc, rfl⟩
+  obtain ⟨m1, m2, m3⟩ := bcAlignPre_spec c0 hsq ts0 pre
+  obtain ⟨x1, x2, x3⟩ := hx
+  generalize bcAlignPre c0 ts0 pre = x at *
+  unfold bcAlignGt
+  split
+  · exact ⟨x1, x2, x3⟩
+  · split
+    · rename_i h
+      have hd : x.2.1.dim = max c0.major (preDim pre) := by rw [m3]
+      obtain ⟨g1, g2, g3⟩ := setDim_grow x1 x2 (d := gt.v.dim) (by omega) (by omega)
+      exact ⟨g1, g2, g3.trans x3⟩
+    · exact ⟨x1, x2, x3⟩
+
 end EtVerif.GrpcL
